@@ -35,7 +35,7 @@ REAL_ALL = 0xFFFFFFFF
 REAL_QUICK = (1 << 1) | (1 << 2) | (1 << 4) | (1 << 16)   # secp112r2 (h=4), secp128r1 (m = 2*64), secp160k1 (a=0, n 161 bits), brainpoolP256r1
 REAL_QUICK_AFF = (1 << 1) | (1 << 2)
 REAL_SMALL = 0x7F                                          # m <= 160: affordable with 8/16-bit digits
-REAL_REPR = (1 << 1) | (1 << 2) | (1 << 5) | (1 << 11) | (1 << 14) | (1 << 16) | (1 << 19) | (1 << 31)
+REAL_REPR = (1 << 1) | (1 << 2) | (1 << 5) | (1 << 14) | (1 << 16) | (1 << 19) | (1 << 31)   # h=4; m=2*64 A_M3; n 161 bits; a=0; generic a; GOST; 521 bits
 REAL_REPR_AFF = (1 << 1) | (1 << 2) | (1 << 5) | (1 << 14)
 
 
@@ -147,12 +147,12 @@ def thorough_configs():
                         cost=30, extra=NOFULL))
     fam_f = [('BIN', None), ('PRE', None), ('SW', 4), ('C1', 3), ('C2', 4)]
     fam_u = [('BIN', None), ('PRE', None), ('SW', 2), ('C1', 2), ('C2', 3)]
-    for coord in COORDS:
+    for coord in ('aff', 'jac', 'jacMR'):     # the glue has an affine and a projective version; mix/rd only change the callees
         for f in fam_f:
             for u in fam_u:
                 if f[0] == 'BIN' and u[0] == 'BIN':
                     continue        # the header folds this one into TWIN_ALGO_BIN
-                full = (f[0] == 'C2' and u[0] == 'C1')      # the combination nearest to the defaults gets the full space
+                full = (f[0] == 'C2' and u[0] == 'C1' and coord != 'jac')  # nearest to the defaults: the full space
                 c.append(mk('twinfu', coord, 8, fxp=f, unk=u, twin='FU', targets=T_TWIN, real=(1 << 2),
                             cost=(100 if full else 8), extra=([] if full else NOFULL)))
     for coord in ('aff', 'jacMR'):
@@ -214,6 +214,13 @@ def run(tier):
         'ASan without the fake stack (no stack-use-after-return detection); every other ASan check on',
     ]
     bdir = core.build_dir(PROP)
+    for f in os.listdir(bdir):                 # binaries / progress files of an interrupted earlier run
+        p = os.path.join(bdir, f)
+        if os.path.isfile(p) and f != 'real_expected.txt':
+            try:
+                os.unlink(p)
+            except OSError:
+                pass
     configs = quick_configs() if tier == 'quick' else thorough_configs()
 
     # ---- expected points of the built-in curves (check time, from the working tree under test)
